@@ -341,11 +341,17 @@ class Gen:
                 blocks.append(b)
         D = 1
         members = 0
+        all_complex = True
         for b in blocks:
             D *= b.D
             members += len(b.members)
-        if members > 5:
-            return 10**9  # XLA compile time of the library's einsums explodes with tensor rank (> 60 s at rank 14)
+            dt = getattr(b.arr, "dtype", None)
+            if dt is None or dt.kind != "c":
+                all_complex = False
+        # XLA's CPU compile time of the library's 3-operand einsums explodes with tensor rank:
+        # ~190 s for an all-float64 rank-8 contraction (4 members at matrix level), > 60 s at rank 14
+        if members > 5 or (members > 3 and not all_complex):
+            return 10**9
         return D
 
     def angle(self):
